@@ -47,7 +47,7 @@ Definition override_menu : list (list (str * sval)) :=
     [(s_stroke, SvRGB h2)];
     [(s_stroke, SvRGB h2); (s_stroke_width, SvInt 3); (s_fill, SvGrad [h2; h1])];
     [(s_text_fill, SvRGB h1)];
-    [(s_text_fill, SvGrad [h1; h2]); (s_fill, SvGrad [h1; h2])] ].
+    [(s_text_fill, SvGrad [h1; h2]); (s_fill, SvGrad [h2; h1])] ].
 
 (* label / floating labels / features shapes *)
 Definition shapes_of (k : kind) : list (bool * nat * nat) :=
@@ -89,12 +89,22 @@ Definition closed_kc (dc : str) (kc : kind * str) : bool :=
   let dfl := dfl_of dc kc in forallb (closed_sh dfl kc) (shapes_of (fst kc)).
 Definition closed_dc (dc : str) : bool := forallb (closed_kc dc) (kinds_classes dc).
 Definition all_closed : bool := forallb closed_dc diagram_classes.
-(* the combinations that are not closed, for the report when [all_closed] is false *)
+(* per-object closure (context-free: no drawing state), for the theorem about whole drawings *)
+Definition obj_closed_d (dfl : list (str * sval)) (o : jobj) : bool :=
+  match draw1_d TBL dfl o with
+  | Some d => subset_str (dr_refs d) (dr_defs d ++ flat_map (row_ids TBL) (dr_syms d))
+  | None => false
+  end.
+Definition oclosed_sh (dfl : list (str * sval)) (kc : kind * str) (sh : bool * nat * nat) : bool :=
+  forallb (fun ov => obj_closed_d dfl (mk_obj kc sh ov)) override_menu.
+Definition oclosed_kc (dc : str) (kc : kind * str) : bool :=
+  let dfl := dfl_of dc kc in forallb (oclosed_sh dfl kc) (shapes_of (fst kc)).
+Definition oclosed_dc (dc : str) : bool := forallb (oclosed_kc dc) (kinds_classes dc).
+
+(* the combinations that are not closed, for the report when the closure theorem no longer holds *)
 Definition unclosed : list (str * (kind * str)) :=
   flat_map (fun dc =>
-    flat_map (fun kc =>
-      if forallb (fun sh => forallb (fun ov => closed1 dc (mk_obj kc sh ov)) override_menu) (shapes_of (fst kc))
-      then [] else [(dc, kc)]) (kinds_classes dc)) diagram_classes.
+    flat_map (fun kc => if closed_kc dc kc then [] else [(dc, kc)]) (kinds_classes dc)) diagram_classes.
 Definition n_combos : N :=
   fold_right (fun dc n => fold_right (fun kc n => N.of_nat (length (shapes_of (fst kc))) * N.of_nat (length override_menu) + n) n (kinds_classes dc))
              0 diagram_classes.
@@ -168,5 +178,9 @@ Definition w_render (v : val) : val :=
       end
   | _ => bad
   end.
+Definition kind_code (k : kind) : Z :=
+  match k with KBox => 0 | KEdge => 1 | KCircle => 2 | KSymbol => 3 | KBoxSymbol => 4 end%Z.
+Definition w_unclosed (_ : val) : val :=
+  VL (map (fun x => VL [VS (fst x); VZ (kind_code (fst (snd x))); VS (snd (snd x))]) unclosed).
 Definition w_intround (v : val) : val :=
   match dec_q v with Some q => VZ (intround q) | None => bad end.
